@@ -229,3 +229,15 @@ def fmt_kw(kw):
                 t += "+%r s" % kw["second_of_minute_decimal"]
     return "%s%s%+03d:%02d" % (d, t, kw.get("time_zone_hour", 0),
                                abs(kw.get("time_zone_minute", 0)))
+
+
+def sp(obj):
+    """str() that never raises (a point may be unprintable in its own
+    notation, e.g. a negative year with no expanded digits)."""
+    try:
+        return str(obj)
+    except Exception as e:      # noqa: BLE001
+        try:
+            return "<unprintable %s: %r>" % (type(e).__name__, dict(obj.get_props()))
+        except Exception:       # noqa: BLE001
+            return "<unprintable %s>" % type(e).__name__
